@@ -899,7 +899,10 @@ func c09PairSpecs() []c09Spec {
 }
 
 var c09PairArg = map[byte]string{'d': "num:-42", 'i': "num:42", 'o': "num:255", 'u': "num:1000", 'x': "num:255", 'X': "num:-1", 'c': "num:65", 's': `str:"12abc"`,
-	'e': "num:0.5", 'E': "num:1e-05", 'f': "num:2.5", 'g': "num:100000", 'G': "num:1e+20"}
+	'e': "num:3.14159265", 'E': "num:1e-05", 'f': "num:123456.789", 'g': "num:123456.789", 'G': "num:3.14159265"}
+
+// (the float arguments need more than 6 significant digits, so that a default precision
+// wrongly carried over from a neighbouring conversion in the same format shows)
 
 // c09CheckPairs: sprintf("<%%" s1 "|" s2 "%%>", args1..., args2...) must be
 // "<%" + sprintf(s1, args1...) + "|" + sprintf(s2, args2...) + "%>".
